@@ -9,17 +9,37 @@ several at once, transported as DER; `chk T der <hex> <errbufsize>` of harness/m
 against the extracted model (faithfulness) and against the Spec (oracle).  A hand-written
 module of restricted strings and BIT STRINGs is checked against a Python reading of the
 Spec only (the model has no strings)."""
-import sys, os, subprocess
+import sys, os, subprocess, time
 sys.path.insert(0, os.path.join(os.path.dirname(os.path.abspath(__file__)), "..", "lib"))
 from vlib import *
 from modcorpus import run_mod
 from modbuild import build_modules
 from modgen import Gen, model_str, val_str
 import c08_util as U
+import c08_wide as W
 
-SIZES = [512, 0, 1, 2, 8, 64, 128]
-BUILTIN_NAMES = ["INTEGER", "OCTET STRING", "BOOLEAN", "NULL", "SEQUENCE", "SEQUENCE OF", "SET OF", "CHOICE", "SET",
-                 "IA5String", "PrintableString", "NumericString", "VisibleString", "UTF8String", "BIT STRING", "ENUMERATED"]
+MODDRV_EXTRA = os.path.join(HARNESS, "moddrv_c08.inc")
+BUILTIN_NAMES = ["INTEGER", "OCTET STRING", "BOOLEAN", "NULL", "SEQUENCE", "SEQUENCE OF", "SET OF", "CHOICE", "SET", "REAL",
+                 "IA5String", "PrintableString", "NumericString", "VisibleString", "UTF8String", "BIT STRING", "ENUMERATED",
+                 "BMPString", "UniversalString", "UTCTime", "GeneralizedTime"]
+
+# compiler flag sets the generated checkers are observed under: (tag, asn1c options, -fwide-types?, share of the cases run)
+# (tag, asn1c options, -fwide-types?, which modules, 1/share of the non-valid cases run)
+FLAGSETS_QUICK = [
+    ("cn", ("-fcompound-names",), False, "all", 1),
+    ("wide", ("-fcompound-names", "-fwide-types"), True, "main", 1),
+    ("plain", (), False, "lite", 3),
+    ("bare", ("-fcompound-names", "-no-gen-PER", "-no-gen-OER"), False, "lite", 3),
+    ("widebare", ("-fwide-types", "-no-gen-PER", "-no-gen-OER"), True, "lite", 3),
+]
+FLAGSETS_THOROUGH = [
+    ("cn", ("-fcompound-names",), False, "all", 1),
+    ("wide", ("-fcompound-names", "-fwide-types"), True, "main", 1),
+    ("plain", (), False, "lite", 1),
+    ("noper", ("-fcompound-names", "-no-gen-PER"), False, "main", 3),
+    ("nooer", ("-fcompound-names", "-no-gen-OER"), False, "main", 3),
+    ("widebare", ("-fwide-types", "-no-gen-PER", "-no-gen-OER"), True, "lite", 1),
+]
 
 
 def module_names(m):
@@ -35,6 +55,7 @@ def module_names(m):
             if "el" in x:
                 stack.append(x["el"])
     names.update(["a", "b", "c"])
+    names.update(m.get("names", []))
     return names
 
 
@@ -89,133 +110,256 @@ def type_cases(t, tn, env, rng, tier):
     return out
 
 
-def check_message(run, m, line, size, f, full, clamp, names, replay):
-    """on failure: errlen, NUL and text of the message written into a buffer of `size` bytes"""
-    ret, errlen, nul_ok, hx = f[0], int(f[1]), f[2], f[3]
-    msg = bytes.fromhex(hx).decode("latin1") if hx != "-" else ""
-    want = clamp.get((size, len(full)))
+def boundary_cases(t, tn, env, rng, tier):
+    """[(label, value)] for a type of a systematic boundary module: for every constraint site of the type
+    the values at, just inside and just outside every edge, and far ones; everything else valid"""
+    top = U.base_of(t, env)
+    out, seen = [], set()
+    for d, v in [("valid", U.valid_value(top, rng, env))] + U.sites(top, env, rng):
+        s = val_str(v)
+        if s not in seen:
+            seen.add(s)
+            out.append(("valid" if d == "valid" else "edge:" + d, v))
+    return out
+
+
+# ---------------------------------------------------------------- the message path
+def parse_chkx(line):
+    """-> (ret, L, full message, null-call ret, [(size, ret, errlen, strlen, flags, text)]) or None"""
+    f = line.split()
+    if len(f) < 4 or f[0] not in ("0", "-1") or not f[3].startswith("null:"):
+        return None
+    try:
+        ret, L = f[0], int(f[1])
+        full = bytes.fromhex(f[2]).decode("latin1") if f[2] != "-" else ""
+        sweep = []
+        for x in f[4:]:
+            size, r, el, sl, flags, hx = x.split(":")
+            sweep.append((int(size), r, int(el), int(sl), flags, bytes.fromhex(hx).decode("latin1") if hx != "-" else ""))
+        return ret, L, full, f[3][5:], sweep
+    except ValueError:
+        return None
+
+
+def check_messages(run, line, parsed, clamp_need, names, replay):
+    """the oracle on the error-message path, for every buffer size of the sweep
+    {0,1,2,L-2,L-1,L,L+1,L+2,128,256} (L = length of THIS message): verdict independent of the buffer;
+    size 0 / no buffer: nothing touched; else 0 <= *errlen < size, errbuf[*errlen] == 0, strlen == *errlen,
+    the text is the prefix of the full message, nothing written after the NUL nor outside the buffer;
+    the message names a type.  Returns the (size, L, errlen) triples to compare with the model's clamp."""
+    ret, L, full, nullret, sweep = parsed
     problems = []
-    if size >= 1 and errlen > size - 1:
-        problems.append("errlen %d exceeds buffer size-1 (%d)" % (errlen, size - 1))
-    if nul_ok != "1":
-        problems.append("no NUL at errbuf[errlen] / inside the buffer")
-    if want is not None and want != "NONE" and int(want.split()[0]) != errlen:
-        problems.append("errlen %d differs from the model's clamp (%s)" % (errlen, want))
-    if msg != full[:errlen]:
-        problems.append("message is not the clamped prefix of the full message")
-    if not names_type(msg, names, complete=(len(msg) == len(full))):
+    if nullret != ret:
+        problems.append("verdict without an error buffer (%s) differs from the verdict with one (%s)" % (nullret, ret))
+    if ret == "-1" and len(full) != L:
+        problems.append("reference call: *errlen %d but strlen %d" % (L, len(full)))
+    if ret == "-1" and not names_type(full, names, True):
         problems.append("message does not start with the name of a type of the module")
-    for p in problems:
-        run.violation("oracle:errmsg", dict(replay, what=p, command_line=line, c=" ".join(f), message=msg, full_message=full))
-
-
-def model_layer(run, rng, tier, model, mods, clamp):
-    for m in mods:
-        if not m.get("exe"):
-            run.violation("build:module", {"what": "a valid generated module was rejected or its code does not compile", "module": m["text"],
-                                           "asn1c_out": m.get("asn1c_out", "")[-1500:], "build_log": m.get("build_log", "")[-1500:]})
+    want_sizes = set(x for x in [0, 1, 2, L - 2, L - 1, L, L + 1, L + 2, 128, 256] if x >= 0)
+    if set(x[0] for x in sweep) != want_sizes:
+        problems.append("harness: size sweep %s differs from %s" % (sorted(x[0] for x in sweep), sorted(want_sizes)))
+    for size, r, el, sl, flags, text in sweep:
+        where = "size %d (L=%d): " % (size, L)
+        if r != ret:
+            problems.append(where + "return value %s depends on the error buffer size (reference %s)" % (r, ret))
+        if "C" not in flags:
+            problems.append(where + "bytes before or beyond the buffer were written")
+        if size == 0:
+            if "Z" not in flags:
+                problems.append(where + "*errlen changed although the buffer has no room")
             continue
-        env = dict(m["defs"])
-        names = module_names(m)
-        cases = []
-        for tn, t in m["defs"]:
-            cty = U.def_cty(tn, env)
-            ts = model_str(m["trees"][tn])
-            for label, v in type_cases(t, tn, env, rng, tier):
-                cases.append({"tn": tn, "t": t, "cty": cty, "ts": ts, "v": v, "vs": val_str(v), "label": label})
-        ml = []
-        for c in cases:
-            ml += ["der %s %s" % (c["ts"], c["vs"]), "c08chk %s %s" % (c["cty"], c["vs"]), "spec_c08sat %s %s" % (c["cty"], c["vs"]),
-                   "c08repr %s %s" % (c["cty"], c["vs"]), "c08safe %s" % c["cty"]]
+        if ret == "0":
+            if sl != -1 or el != size:
+                problems.append(where + "buffer or *errlen touched although the check succeeded (errlen %d, NUL at %d)" % (el, sl))
+            continue
+        if not (0 <= el < size):
+            problems.append(where + "*errlen %d is not inside [0, size)" % el)
+        if "N" not in flags:
+            problems.append(where + "no NUL at errbuf[*errlen]")
+        if sl != el:
+            problems.append(where + "strlen(errbuf) %d differs from *errlen %d" % (sl, el))
+        if sl >= 0 and text != full[:sl]:
+            problems.append(where + "the text is not a prefix of the full message")
+        if el != min(L, size - 1):
+            problems.append(where + "*errlen %d is not min(L, size-1) = %d" % (el, min(L, size - 1)))
+        if "T" not in flags:
+            problems.append(where + "bytes after the terminating NUL were written")
+        if sl >= 0 and not names_type(text, names, complete=(sl == L)):
+            problems.append(where + "message does not start with the name of a type of the module")
+        clamp_need.append((size, L, el, line))
+    for p in problems[:4]:
+        run.violation("oracle:errmsg", dict(replay, what=p, command_line=line, full_message=full, sweep=str(sweep)[:900]))
+    run.count("errbuf_sizes_checked", len(sweep))
+
+
+def check_clamp_model(run, model, clamp_need):
+    """faithfulness of the model of _asn_i_ctfailcb: *errlen for every (size, vsnprintf return) pair met"""
+    pairs = sorted(set((s, L) for s, L, _e, _l in clamp_need))
+    if not pairs:
+        return
+    rc, co, ce = run_lines(model, ["c08clamp %d %d" % p for p in pairs], timeout=300)
+    if rc != 0 or len(co) != len(pairs):
+        raise RuntimeError("model driver failed on c08clamp: %s %s" % (rc, ce))
+    want = dict(zip(pairs, co))
+    bad = 0
+    for s, L, el, line in clamp_need:
+        w = want[(s, L)]
+        if w == "NONE" or int(w.split()[0]) != el:
+            bad += 1
+            if bad <= 3:
+                run.violation("correspondence:Rt.Constraints.ctfail_clamp", {"what": "*errlen %d differs from the model's clamp (%s) for buffer size %d, message length %d" % (el, w, s, L),
+                                                                              "command_line": line})
+    run.count("clamp_pairs_vs_model", len(pairs))
+
+
+_model_cache = {}
+
+
+def model_eval(model, wide, cases, der_check):
+    """fills mres / spec / repr / safe (and mder for a share) of every case from the extracted model"""
+    w = "1" if wide else "0"
+    ml, idx = [], []
+    for c in cases:
+        key = (w, c["cty"], c["vs"])
+        if key in _model_cache:
+            continue
+        _model_cache[key] = None
+        idx.append(key)
+        ml += ["c08chk %s %s %s" % (w, c["cty"], c["vs"]), "spec_c08sat %s %s" % (c["cty"], c["vs"]), "c08repr %s %s %s" % (w, c["cty"], c["vs"])]
+    ctys = sorted(set(c["cty"] for c in cases if (w, c["cty"]) not in _model_cache))
+    ml += ["c08safe %s %s" % (w, t) for t in ctys]
+    ders = [c for c in cases if der_check(c) and ("der", c["ts"], c["vs"]) not in _model_cache]
+    ml += ["der %s %s" % (c["ts"], c["vs"]) for c in ders]
+    if ml:
         rc, mo, me = run_lines(model, ml, timeout=1200)
         if rc != 0 or len(mo) != len(ml):
             raise RuntimeError("model driver failed: %s %s" % (rc, me))
-        live = []
-        for i, c in enumerate(cases):
-            c["der"], c["mres"], c["spec"], c["repr"], c["safe"] = mo[5 * i:5 * i + 5]
-            pd = U.py_der(m["trees"][c["tn"]], c["v"]).hex()
-            if U.all_int64(c["v"]) and pd != c["der"]:
-                run.violation("harness:der", {"what": "the Python DER encoder and the model's differ", "type": c["ts"], "value": c["vs"], "python": pd, "model": c["der"]}, no_input=True)
-                continue
-            c["der"] = pd
-            if c["der"] == "NONE" or c["mres"].startswith("EXN") or c["spec"].startswith("EXN"):
-                run.violation("model:front-end", {"what": "model driver could not evaluate a generated case", "type": c["cty"], "value": c["vs"], "model": mo[5 * i:5 * i + 5]}, no_input=True)
-                continue
-            if c["repr"] != "true":
-                run.count("skipped_not_representable_in_C_type")
-                continue
-            live.append(c)
-        lines = []
-        for c in live:
-            lines.append("xcode %s der %s der" % (c["tn"], c["der"]))
-            for s in SIZES:
-                lines.append("chk %s der %s %d" % (c["tn"], c["der"], s))
-        try:
-            out = run_mod(run, m, lines, "C08-chk", timeout=600)
-        except subprocess.TimeoutExpired:
-            run.violation("oracle:termination", {"what": "asn_check_constraints driver run did not finish within 600 s", "module": m["text"]})
+        for i, key in enumerate(idx):
+            _model_cache[key] = mo[3 * i:3 * i + 3]
+        off = 3 * len(idx)
+        for i, t in enumerate(ctys):
+            _model_cache[(w, t)] = mo[off + i]
+        off += len(ctys)
+        for i, c in enumerate(ders):
+            _model_cache[("der", c["ts"], c["vs"])] = mo[off + i]
+    for c in cases:
+        c["mres"], c["spec"], c["repr"] = _model_cache[(w, c["cty"], c["vs"])]
+        c["safe"] = _model_cache[(w, c["cty"])]
+        c["mder"] = _model_cache.get(("der", c["ts"], c["vs"]))
+
+
+def module_cases(m, rng, tier):
+    env = dict(m["defs"])
+    cases = []
+    gen = boundary_cases if m.get("boundary") else type_cases
+    for tn, t in m["defs"]:
+        cty = U.def_cty(tn, env)
+        ts = model_str(m["trees"][tn])
+        for label, v in gen(t, tn, env, rng, tier):
+            v = U.canon_value(m["trees"][tn], v)
+            cases.append({"tn": tn, "t": t, "cty": cty, "ts": ts, "v": v, "vs": val_str(v), "label": label})
+    return cases
+
+
+def model_layer(run, rng, tier, model, m, cases, flag, clamp_need):
+    """one module compiled under one flag set: C vs model (faithfulness), C vs Spec (the property), message path"""
+    tag, opts, wide, _which, share = flag
+    if not m.get("exe"):
+        run.violation("build:module", {"what": "a valid generated module was rejected or its code does not compile (asn1c %s)" % " ".join(opts), "module": m["text"][:6000],
+                                       "asn1c_out": m.get("asn1c_out", "")[-1500:], "build_log": m.get("build_log", "")[-1500:]})
+        return
+    env = dict(m["defs"])
+    names = module_names(m)
+    if share > 1:
+        cases = [c for i, c in enumerate(cases) if c["label"] == "valid" or (i + run.seed) % share == 0]
+    have = set(n for n, _t in m["defs"])
+    cases = [dict(c) for c in cases if c["tn"] in have]
+    nder = [0]
+
+    def der_check(c):
+        if not U.all_int64(c["v"]):
+            return False
+        nder[0] += 1
+        return (not m.get("boundary")) or nder[0] % 8 == 0
+
+    model_eval(model, wide, cases, der_check)
+    live = []
+    for c in cases:
+        c["der"] = U.py_der(m["trees"][c["tn"]], c["v"]).hex()
+        if c["mder"] is not None and c["mder"] != c["der"]:
+            run.violation("harness:der", {"what": "the Python DER encoder and the model's differ", "type": c["ts"], "value": c["vs"][:300], "python": c["der"][:300], "model": c["mder"][:300]}, no_input=True)
             continue
-        per = 1 + len(SIZES)
-        for i, c in enumerate(live):
-            o = out[per * i:per * i + per]
-            line = lines[per * i + 1]
-            replay = {"module": m["text"], "type": c["tn"], "model_type": c["cty"], "value": c["vs"], "case": c["label"], "der": c["der"][:400]}
-            if o[0] != "OK " + c["der"]:
-                run.count("skipped_transport_not_identity")      # the decoder/encoder pair does not hold this value (C01/C03's business)
-                continue
-            run.case(line[:300])
-            run.count(c["label"].split(":")[0])
-            if c["label"].startswith("one:"):
-                run.count("bound_" + c["label"][4:])
-            fs = [x.split() for x in o[1:]]
-            if any(len(f) != 4 or f[0] not in ("0", "-1") for f in fs):
-                run.violation("oracle:chk", dict(replay, what="unexpected driver output", command_line=line, c=o))
-                continue
-            rets = set(f[0] for f in fs)
-            if len(rets) != 1:
-                run.violation("oracle:errbuf-changes-verdict", dict(replay, what="return value depends on the error buffer size", c=o))
-            ret = fs[0][0]
-            full = bytes.fromhex(fs[0][3]).decode("latin1") if fs[0][3] != "-" else ""
-            # (i) faithfulness: the model of the generated checker and walkers
-            m_ok = c["mres"] == "OK"
-            kind_ok = True
-            if ret == "-1" and not m_ok:
-                kind = c["mres"].split()[1]
-                kind_ok = {"constraint": "constraint failed", "toolarge": "value too large", "absent": "absent", "noalt": "no CHOICE element"}.get(kind, "") in full
-            spec_ok = c["spec"] == "true"
-            viol = U.violated(U.base_of(c["t"], env), c["v"], env, slot=(c["t"]["k"] == "ref"))
-            if (len(viol) == 0) != spec_ok:
-                run.violation("oracle:self", dict(replay, what="the Python reading of the Spec and the Coq Spec disagree (harness defect)", python=str(viol)[:400], coq=c["spec"]), no_input=True)
-                continue
-            if (ret == "0") != m_ok or not kind_ok:
-                bad = (ret == "0") != spec_ok
-                run.violation("correspondence:Rt.Constraints.check", dict(replay, what="asn_check_constraints and the model disagree" + (" (and the C contradicts the Spec)" if bad else ""),
-                                                                           command_line=line, c=o[1], model=c["mres"], spec=c["spec"], message=full), no_input=not bad)
-                continue
-            # (ii) the property itself on the C
-            if (ret == "0") != spec_ok:
-                if c["safe"] == "true":
-                    run.violation("oracle:theorem-contradicted", dict(replay, what="model = C differs from the Spec inside the region check_exact covers (harness or proof defect)", c=o[1]), no_input=True)
-                elif ret == "0" and all(ex for _p, _w, ex in viol):
-                    for _p, _w, ex in viol:
-                        run.known_finding(ex[-1], line)
-                elif ret == "-1" and "value too large" in full and U.wide_open_leaf(U.base_of(c["t"], env), c["v"], env):
-                    run.known_finding("C08-wide-open-range-rejects", line)
-                else:
-                    run.violation("oracle:check_exact", dict(replay, what="asn_check_constraints returned %s for a value that %s the constraints" % (ret, "satisfies" if spec_ok else "violates"),
-                                                             command_line=line, c=o[1], violated=str(viol)[:600], message=full))
-            # (iii) the message
-            if ret == "-1":
-                if len(full) >= SIZES[0] - 1:
-                    run.notes.append("message longer than the reference buffer")
-                for s, f in zip(SIZES[1:], fs[1:]):
-                    if s == 0:
-                        continue
-                    check_message(run, m, line, s, f, full, clamp, names, replay)
-                check_message(run, m, line, SIZES[0], fs[0], full, clamp, names, replay)
-        if live:
-            c = live[len(live) // 2]
-            run.sample({"type": c["cty"], "value": c["vs"][:80], "case": c["label"], "model": c["mres"], "spec": c["spec"]})
+        if c["mres"].startswith("EXN") or c["spec"].startswith("EXN"):
+            run.violation("model:front-end", {"what": "model driver could not evaluate a generated case", "type": c["cty"], "value": c["vs"][:300], "model": [c["mres"], c["spec"], c["repr"]]}, no_input=True)
+            continue
+        if c["repr"] != "true":
+            run.count("skipped_not_representable_in_C_type")
+            continue
+        live.append(c)
+    lines = []
+    for c in live:
+        lines += ["xcode %s der %s der" % (c["tn"], c["der"]), "chkx %s der %s" % (c["tn"], c["der"])]
+    lines += ["chke %s der %s" % (c["tn"], c["der"]) for c in live]          # exact-size buffers last: an overrun aborts the driver
+    try:
+        out = run_mod(run, m, lines, "C08-chk[%s]" % tag, timeout=600)
+    except subprocess.TimeoutExpired:
+        run.violation("oracle:termination", {"what": "asn_check_constraints driver run did not finish within 600 s", "module": m["text"][:3000]})
+        return
+    run.count("flagset_%s_cases" % tag, len(live))
+    for i, c in enumerate(live):
+        o = out[2 * i:2 * i + 2]
+        oe = out[2 * len(live) + i]
+        line = lines[2 * i + 1]
+        replay = {"module": m["text"] if len(m["text"]) < 5000 else "(module %s, %d bytes; type text below)" % (m["name"], len(m["text"])),
+                  "type_text": "%s ::= %s" % (c["tn"], U.ctype_text(c["t"]))[:1500], "asn1c_options": " ".join(opts),
+                  "type": c["tn"], "model_type": c["cty"][:1500], "value": c["vs"][:600], "case": c["label"], "der": c["der"][:400]}
+        if o[0] != "OK " + c["der"]:
+            run.count("skipped_transport_not_identity")      # the decoder/encoder pair does not hold this value (C01/C03's business)
+            continue
+        run.case(tag + " " + line[:300])
+        run.count(c["label"].split(":")[0])
+        if c["label"].startswith("one:"):
+            run.count("bound_" + c["label"][4:])
+        parsed = parse_chkx(o[1])
+        if parsed is None:
+            run.violation("oracle:chk", dict(replay, what="unexpected driver output", command_line=line, c=o[1][:600]))
+            continue
+        ret, L, full, _nr, _sw = parsed
+        if not oe.startswith("%s %d EXACT" % (ret, L)) and oe != "CRASH":
+            run.violation("oracle:chk", dict(replay, what="exact-buffer run disagrees with the guarded run", command_line=line, c=[o[1][:300], oe[:300]]))
+        # (i) faithfulness: the model of the generated checker and walkers
+        m_ok = c["mres"] == "OK"
+        kind_ok = True
+        if ret == "-1" and not m_ok:
+            kind = c["mres"].split()[1]
+            kind_ok = {"constraint": "constraint failed", "toolarge": "value too large", "absent": "absent", "noalt": "no CHOICE element"}.get(kind, "") in full
+        spec_ok = c["spec"] == "true"
+        viol = U.violated(U.base_of(c["t"], env), c["v"], env, slot=(c["t"]["k"] == "ref"))
+        if (len(viol) == 0) != spec_ok:
+            run.violation("oracle:self", dict(replay, what="the Python reading of the Spec and the Coq Spec disagree (harness defect)", python=str(viol)[:400], coq=c["spec"]), no_input=True)
+            continue
+        if (ret == "0") != m_ok or not kind_ok:
+            bad = (ret == "0") != spec_ok
+            run.violation("correspondence:Rt.Constraints.check", dict(replay, what="asn_check_constraints and the model disagree" + (" (and the C contradicts the Spec)" if bad else ""),
+                                                                       command_line=line, c=o[1][:300], model=c["mres"], spec=c["spec"], message=full), no_input=not bad)
+            continue
+        # (ii) the property itself on the C
+        if (ret == "0") != spec_ok:
+            if c["safe"] == "true":
+                run.violation("oracle:theorem-contradicted", dict(replay, what="model = C differs from the Spec inside the region check_exact covers (harness or proof defect)", c=o[1][:300]), no_input=True)
+            elif ret == "0" and all(ex for _p, _w, ex in viol):
+                for _p, _w, ex in viol:
+                    run.known_finding(ex[-1], line)
+            elif ret == "-1" and "value too large" in full and U.wide_open_leaf(U.base_of(c["t"], env), c["v"], env):
+                run.known_finding("C08-wide-open-range-rejects", line)
+            else:
+                run.violation("oracle:check_exact", dict(replay, what="asn_check_constraints returned %s for a value that %s the constraints" % (ret, "satisfies" if spec_ok else "violates"),
+                                                         command_line=line, c=o[1][:300], violated=str(viol)[:600], message=full))
+        # (iii) the message, for every buffer size of the sweep
+        check_messages(run, line, parsed, clamp_need, names, replay)
+    if live:
+        c = live[len(live) // 2]
+        run.sample({"flags": " ".join(opts), "type": c["cty"][:200], "value": c["vs"][:80], "case": c["label"], "model": c["mres"], "spec": c["spec"]})
 
 
 def string_contents(rng, base, size, frm):
@@ -274,12 +418,7 @@ def string_contents(rng, base, size, frm):
     return out
 
 
-def string_layer(run, rng, tier, xm, clamp):
-    if not xm.get("exe"):
-        run.violation("build:module", {"what": "the string module was rejected or its code does not compile", "module": xm["text"],
-                                       "asn1c_out": xm.get("asn1c_out", "")[-1500:], "build_log": xm.get("build_log", "")[-1500:]})
-        return
-    names = module_names(xm)
+def string_cases(rng):
     cases = []
     for tn, base, size, frm in U.STRING_TYPES:
         seen = set()
@@ -304,48 +443,66 @@ def string_layer(run, rng, tier, xm, clamp):
             bad.append("b")
         if U.string_spec("IA5String", [], ("", set(b"xy")), c):
             bad.append("c")
-        cases.append({"tn": "XS", "label": "seq", "der": der, "bad": bad, "known": "C08-sequence-early-return" if bad == ["c"] else None,
+        cases.append({"tn": "XS", "label": "seq", "der": der, "bad": bad, "known": None,
                       "what": "XS %r %r %r" % (a, b, c)})
+    return cases
+
+
+def oracle_layer(run, xm, cases, name, opts, clamp_need):
+    """a hand-written / generated module outside the model's algebra: C against the Python reading of the Spec.
+    case: tn, label, der, bad (names of the violated constraints), known (finding id that excuses an acceptance
+    of this invalid value, or None), what"""
+    if not xm.get("exe"):
+        run.violation("build:module", {"what": "module %s was rejected or its code does not compile (asn1c %s)" % (xm["name"], " ".join(opts)), "module": xm["text"][:6000],
+                                       "asn1c_out": xm.get("asn1c_out", "")[-1500:], "build_log": xm.get("build_log", "")[-1500:]})
+        return
+    names = module_names(xm)
     lines = []
     for c in cases:
-        lines.append("xcode %s der %s der" % (c["tn"], c["der"]))
-        for s in SIZES:
-            lines.append("chk %s der %s %d" % (c["tn"], c["der"], s))
+        lines += ["xcode %s der %s der" % (c["tn"], c["der"]), "chkx %s der %s" % (c["tn"], c["der"])]
+    lines += ["chke %s der %s" % (c["tn"], c["der"]) for c in cases]
     try:
-        out = run_mod(run, xm, lines, "C08-strings", timeout=600)
+        out = run_mod(run, xm, lines, name, timeout=600)
     except subprocess.TimeoutExpired:
-        run.violation("oracle:termination", {"what": "driver run did not finish within 600 s", "module": xm["text"]})
+        run.violation("oracle:termination", {"what": "driver run did not finish within 600 s", "module": xm["text"][:3000]})
         return
-    per = 1 + len(SIZES)
+    nrun = 0
     for i, c in enumerate(cases):
-        o = out[per * i:per * i + per]
-        line = lines[per * i + 1]
-        replay = {"module": xm["text"], "type": c["tn"], "case": c["what"], "der": c["der"], "violated": c["bad"]}
+        o = out[2 * i:2 * i + 2]
+        line = lines[2 * i + 1]
+        replay = {"module": xm["text"] if len(xm["text"]) < 5000 else "(module %s)" % xm["name"], "type_text": c.get("text", ""), "asn1c_options": " ".join(opts),
+                  "type": c["tn"], "case": c["what"], "der": c["der"][:600], "violated": c["bad"]}
         if o[0] != "OK " + c["der"]:
-            run.count("string_skipped_transport_not_identity")
+            run.count(name + "_skipped_transport_not_identity:" + c["label"].split(":")[0])
+            if c.get("must_transport"):
+                run.violation("harness:transport", dict(replay, what="a value the harness relies on does not survive DER -> structure -> DER", c=o[0][:300]), no_input=True)
             continue
-        run.case(line)
-        run.count("string_" + c["label"].split(":")[0])
-        fs = [x.split() for x in o[1:]]
-        if any(len(f) != 4 or f[0] not in ("0", "-1") for f in fs):
-            run.violation("oracle:chk", dict(replay, what="unexpected driver output", command_line=line, c=o))
+        nrun += 1
+        run.case(name + " " + line[:300])
+        run.count(name + "_" + c["label"].split(":")[0])
+        parsed = parse_chkx(o[1])
+        if parsed is None:
+            run.violation("oracle:chk", dict(replay, what="unexpected driver output", command_line=line, c=o[1][:600]))
             continue
-        if len(set(f[0] for f in fs)) != 1:
-            run.violation("oracle:errbuf-changes-verdict", dict(replay, what="return value depends on the error buffer size", c=o))
-        ret = fs[0][0]
-        full = bytes.fromhex(fs[0][3]).decode("latin1") if fs[0][3] != "-" else ""
+        ret, L, full, _nr, _sw = parsed
         want = "-1" if c["bad"] else "0"
         if ret != want:
             if c["known"] and ret == "0":
                 run.known_finding(c["known"], line)
+            elif c.get("known_reject") and ret == "-1":
+                run.known_finding(c["known_reject"], line)
             else:
-                run.violation("oracle:check_exact(strings)", dict(replay, what="asn_check_constraints returned %s, the constraints say %s" % (ret, want),
-                                                                  command_line=line, c=o[1], message=full))
-        if ret == "-1":
-            for s, f in zip(SIZES, fs):
-                if s:
-                    check_message(run, xm, line, s, f, full, clamp, names, replay)
-    run.sample({"string_case": cases[3]["what"], "der": cases[3]["der"], "violated": cases[3]["bad"]})
+                run.violation("oracle:check_exact(%s)" % ("strings" if name == "C08-strings" else "wide"),
+                              dict(replay, what="asn_check_constraints returned %s, the constraints say %s" % (ret, want), command_line=line, c=o[1][:300], message=full))
+        check_messages(run, line, parsed, clamp_need, names, replay)
+    run.count(name + "_cases", nrun)
+    if len(cases) > 3:
+        run.sample({"oracle_case": cases[3]["what"], "der": cases[3]["der"][:80], "violated": cases[3]["bad"]})
+
+
+def tick(what):
+    if os.environ.get("VERIF_DEBUG"):
+        log("[c08 %.1fs] %s" % (time.time() - T0, what))
 
 
 def main(tier):
@@ -361,27 +518,50 @@ def main(tier):
         model = model_build()
         g = Gen(rng)
         nm, nt = (8, 5) if tier == "quick" else (40, 6)
-        mods = [U.boundary_module("MC0")] + [U.decorate_module(g.module("M%d" % i, nt), rng) for i in range(nm)]
+        hand = U.boundary_module("MC0")
+        bmods = U.boundary_modules(rng, tier)
+        gmods = [U.decorate_module(g.module("M%d" % i, nt), rng) for i in range(nm)]
         xm = U.string_module("MX0")
-        build_modules(mods + [xm], tag="c08")
-        # the message clamp of the model for every (buffer size, vsnprintf return value) the run can meet
-        q = [(s, v) for s in SIZES for v in range(0, 700)]
-        rc, co, ce = run_lines(model, ["c08clamp %d %d" % p for p in q], timeout=300)
-        clamp = dict(zip(q, co))
-        model_layer(run, rng, tier, model, mods, clamp)
-        string_layer(run, rng, tier, xm, clamp)
+        cases = {m["name"]: module_cases(m, rng, tier) for m in [hand] + bmods + gmods}
+        scases = string_cases(rng)
+        wm, wcases = W.wide_module(rng)
+        clamp_need = []
+        nmods = 0
+        flagsets = FLAGSETS_QUICK if tier == "quick" else FLAGSETS_THOROUGH
+        for flag in flagsets:
+            tag, opts, wide, which, share = flag
+            # the modgen modules and the hand-made one reuse member names and need -fcompound-names;
+            # the systematic ones are compiled under every flag set
+            sel = {"all": [hand] + bmods + gmods, "main": [hand] + bmods + gmods[:2], "boundary": bmods,
+                   "lite": [U.lite_module(m) for m in bmods]}[which]
+            sel = [dict(m) for m in sel]
+            xs = [dict(xm), dict(wm)] if which in ("all", "main") else []
+            tick("build " + tag)
+            build_modules(sel + xs, tag="c08_" + tag, opts=opts, moddrv_extra=MODDRV_EXTRA)
+            tick("built " + tag)
+            nmods += len(sel) + len(xs)
+            for m in sel:
+                model_layer(run, rng, tier, model, m, cases[m["name"]], flag, clamp_need)
+                tick("ran %s %s" % (tag, m["name"]))
+            for x in xs:
+                if x["name"] == xm["name"]:
+                    oracle_layer(run, x, scases, "C08-strings", opts, clamp_need)
+                else:
+                    oracle_layer(run, x, wcases, "C08-wide", opts, clamp_need)
+                tick("ran %s %s" % (tag, x["name"]))
+        check_clamp_model(run, model, clamp_need)
     except (BuildError, RuntimeError) as e:
         run.violation("build", {"what": str(e)[-2500:]}, no_input=True)
         return run.finish("proof", (nthm, ndis))
     tb = ["Coq 8.16.1 kernel; vm_compute for refuted witnesses and Examples", "axioms under Print Assumptions: " + (", ".join(sorted(axioms)) or "none (Closed under the global context)"),
           "extraction: ExtrOcamlBasic only; OCaml 4.13.1; ocaml/drv_c08.ml (parser of the cty / value strings)",
           "lib/modgen.py (modules, independent X.680 tagging for the DER transport), lib/c08_util.py (decoration with unions/EXCEPT, cty strings, value and violation generators, Python reading of the Spec used to attribute mismatches to known findings, string oracle)",
-          "harness/moddrv.c (`chk`), lib/modbuild.py; gcc + ASan/UBSan", "values reach the C as DER through ber_decode; a case is used only if DER -> structure -> DER is the identity",
-          "vsnprintf's return-length contract (the clamp is modelled over its return value; the text is compared with the message obtained in a 512-byte buffer)"]
+          "harness/moddrv.c + harness/moddrv_c08.inc (`chkx`: canary-guarded buffers, `chke`: exact-size malloc under ASan), lib/modbuild.py; gcc + ASan/UBSan", "values reach the C as DER through ber_decode; a case is used only if DER -> structure -> DER is the identity",
+          "vsnprintf's contract (the model of the buffer is stated over it; the text is compared with the message obtained in a 4096-byte buffer)"]
     return run.finish("proof", (nthm, ndis), trusted_base=tb,
                       checker_cmd="make -C /verif all && coqc -Q coq A1 coq/Props/Properties_C08.v",
-                      extra_cov={"theorems": names, "modules": len(mods) + 1,
-                                 "rule": "one case = (module, type, value) run with 7 error-buffer sizes; values: valid, each bound of each constraint at each position violated alone on each side, several at once; distinct",
+                      extra_cov={"theorems": names, "modules": nmods, "flag_sets": [" ".join(f[1]) or "(none)" for f in flagsets],
+                                 "rule": "one case = (flag set, module, type, value), each run with the error-buffer sizes {0,1,2,L-2..L+2,128,256} around the length L of its own message; values: valid, at / just inside / just outside every edge of every constraint at each position, far, several violations at once; distinct",
                                  "traces_validated_against_impl": run.cov["evaluations"]},
                       assumptions=["constraints are non-extensible; value, SIZE (OCTET STRING, SEQUENCE OF, SET OF) and EXCEPT over the modelled algebra; strings/BIT STRING are covered by the tie only",
                                    "absent mandatory members and a CHOICE without alternative cannot be transported as DER and are covered by the model only",
